@@ -22,7 +22,11 @@ WordWeights(km, wd) ==
       left == Sel(0)  inside == Sel(1)  right == Sel(2)
   IN [k \in 1..(len + 1) |-> IF k = 1 THEN left ELSE IF k = len + 1 THEN right ELSE inside]
 
-Convert(km) ==
+\* Some distributed KyTea models contain type n-grams with the invalid type code 0x04; such n-grams are skipped,
+\* all others are converted.
+ValidTypeNgrams(km) == SelectSeq(km.type_ngrams, LAMBDA e: \A x \in 1..Len(e.ng) : e.ng[x] # 4)
+Convert(km0) ==
+  LET km == [km0 EXCEPT !.type_ngrams = ValidTypeNgrams(km0)] IN
   [bias |-> km.bias, cw |-> km.char_w, tw |-> km.type_w,
    cng |-> [i \in 1..Len(km.char_ngrams) |->
               [ng |-> km.char_ngrams[i].ng, w |-> SubSeq(km.char_ngrams[i].v, 1, 2 * km.char_w - Len(km.char_ngrams[i].ng) + 1)]],
